@@ -88,8 +88,8 @@ Theorem C09_item_to_at_most_one_popper :
 Proof. exact TreiberStackFacts.stack_at_most_once. Qed.
 Print Assumptions C09_item_to_at_most_one_popper.
 
-(** [elim_exactly_one_popper_partial]: the two facts instantiated on the elimination model *)
-Theorem C09_elim_exactly_one_popper_partial :
+(** the two history-level facts instantiated on the elimination model *)
+Theorem C09_elim_delivery_history :
   forall (fuel cap : nat) (ths : list (list nat * list Elim.op)) c,
     Conc.reach (Elim.init_cfg fuel cap ths) c ->
     let h := hist (Conc.trace c) in
@@ -101,14 +101,13 @@ Proof.
   - now apply TreiberStackFacts.stack_no_invention.
   - now apply TreiberStackFacts.stack_at_most_once.
 Qed.
-Print Assumptions C09_elim_exactly_one_popper_partial.
+Print Assumptions C09_elim_delivery_history.
 
-(** FULL STATEMENT (node level), NOT PROVED in this development: in every reachable configuration a node handed
-    over through a collision slot sits in the descriptor of at most one popper and is not on the m_pNext chain from
-    m_Top (it never enters the list).  What is missing: an extra invariant ("a node held by a pop descriptor is
-    spent: its push is linearized, it is not in the stack, and no other pop descriptor holds it") threaded through
-    every step lemma of ElimProofs.  The client-visible consequences are the three theorems above. *)
-Definition elim_exactly_one_popper_statement : Prop :=
+(** Node level, for every schedule: in every reachable configuration a node that sits in the descriptor of a pop
+    (op.pVal of an operation with idOp = op_pop: it was handed over through a collision slot) sits in no other pop
+    descriptor, and it is not on the m_pNext chain from m_Top — an eliminated item never enters the list.
+    (Invariant behind it, ElimProofs.HI: such a node is "spent" — its push is already linearized.) *)
+Theorem C09_elim_exactly_one_popper :
   forall (fuel cap : nat) (ths : list (list nat * list Elim.op)) c,
     Conc.reach (Elim.init_cfg fuel cap ths) c ->
     let g := Conc.shared c in
@@ -116,6 +115,8 @@ Definition elim_exactly_one_popper_statement : Prop :=
                      Elim.d_val g t1 = Some n -> Elim.d_val g t2 = Some n -> t1 = t2) /\
     (forall t n l, Elim.d_push g t = false -> Elim.d_val g t = Some n ->
                    TreiberProofs.chain (Elim.next g) (Elim.top g) l -> ~ In n l).
+Proof. exact ElimProofs.elim_exactly_one_popper. Qed.
+Print Assumptions C09_elim_exactly_one_popper.
 
 (** ** non-vacuity *)
 (** a concrete 2-thread run with a contended CAS in which three pops return (two values, one empty) *)
